@@ -85,10 +85,21 @@ pub fn observe_blocks<T: Tbl>(ctx: &mut Ctx, ev: &Ev, what: &str, t: &T, n: usiz
     Some(Model::from_blocks(n, blocks))
 }
 
-/// Build the real value for a model through `from_blocks` (guarded; a panic here is reported).
+/// Build the real value for a model (guarded; a panic here is reported).  Half of the time through
+/// `from_blocks`, otherwise through another construction route chosen by the event's digest (`Tbl::t_via_route`:
+/// clone, clone_from / clone_into / Vec::clone_from over a value of another size, the other table type, the
+/// printed form), so that every check also runs on values with a history.  The route must give the value
+/// `from_blocks` gives (monitor `construction-route`).
 pub fn realize<T: Tbl>(ctx: &mut Ctx, ev: &Ev, n: usize, blocks: &[u64]) -> Option<T> {
-    match guard(|| T::t_from_blocks(n, blocks)) {
-        Outcome::Returned(t) => Some(t),
+    let route = ev.digest() ^ blocks.iter().fold(0x9e37_79b9_7f4a_7c15u64, |h, w| (h ^ *w).wrapping_mul(0x0100_0000_01b3).rotate_left(23));
+    match guard(|| (T::t_from_blocks(n, blocks), T::t_via_route(n, blocks, route))) {
+        Outcome::Returned((direct, (t, name))) => {
+            ctx.check("construction-route", t == direct && t.nv() == direct.nv() && t.t_blocks() == direct.t_blocks(), ev, name, || {
+                format!("a value of {} variables built through {} is not the value from_blocks builds: num_vars {} blocks {} (expected {})",
+                    n, name, t.nv(), crate::ctx::hex_of_blocks(t.t_blocks()), crate::ctx::hex_of_blocks(direct.t_blocks()))
+            });
+            Some(t)
+        }
         Outcome::Panicked(msg) => {
             ctx.violate(
                 "from_blocks",
